@@ -279,6 +279,13 @@ type Config struct {
 	// the remaining registrations are added and the collection is built for
 	// real. Building is not supposed to leave anything behind in the collection.
 	PreBuild int
+	// LateDuringBuild: instead of building the collection once after the first PreBuild registrations,
+	// the remaining registration calls are issued by a second goroutine while the one and only Build is
+	// under way - started from the LateAt-th time Build looks at its context. Collection documents that
+	// it is to be configured before Build; what is asked here is only what holds for the provider that a
+	// successful Build returned, whichever registrations it saw.
+	LateDuringBuild bool
+	LateAt          int
 	// Ghosts are registrations that come and go while the collection is being
 	// assembled: each is registered before the At-th registration call and
 	// removed again (Remove / RemoveKeyed) after Span further calls - at the
@@ -321,6 +328,9 @@ func (c *Config) String() string {
 	}
 	if c.Scribble {
 		parts = append(parts, "[constructors and callers reorder the group slices they get]")
+	}
+	if c.PreBuild > 0 && c.LateDuringBuild {
+		return fmt.Sprintf("[all but the first %d registered by another goroutine during Build, from its context poll no. %d] ", c.PreBuild, c.LateAt) + strings.Join(parts, " ; ")
 	}
 	if c.PreBuild > 0 {
 		return fmt.Sprintf("[built once after the first %d] ", c.PreBuild) + strings.Join(parts, " ; ")
